@@ -12,6 +12,8 @@ import (
 	"hash/fnv"
 	"math"
 	"sort"
+	"strings"
+	"sync"
 
 	"github.com/smart-core-os/sc-golang/internal/verif/vk"
 )
@@ -63,6 +65,8 @@ func run(r *vk.Run) {
 			}
 		}
 	}
+
+	concurrentWalks(r)
 
 	// minimums per repetition, about half of what a repetition yields on the unchanged tree
 	need := func(counter string, perRep int) { r.Require(counter, perRep*reps) }
@@ -497,4 +501,85 @@ func (s *scenario) checkedWalk(r *vk.Run, call callFn, sizes []int32, mc maskCla
 		}
 	}
 	return clean, w
+}
+
+// concurrentWalks: several clients page through their own models (and two through the same model) at the same time.
+// Nothing about a walk belongs to anybody else: every one of them returns its own items exactly once, in order.
+func concurrentWalks(r *vk.Run) {
+	rounds := r.Pick(3, 120)
+	idx := 0
+	for _, t := range targets {
+		for round := 0; round < rounds; round++ {
+			idx++
+			if !r.Mine(idx) {
+				continue
+			}
+			rng := r.CaseRand("concurrent-walks", idx)
+			const clients = 6
+			var scs []*scenario
+			for c := 0; c < clients-1; c++ {
+				n := rng.Range(5, 14)
+				if n <= 60 {
+					n += t.seeded
+				}
+				scs = append(scs, build(r, t, rng, n))
+			}
+			scs = append(scs, scs[0]) // the last client shares the first one's model
+			type result struct {
+				bad string
+			}
+			res := make([]result, clients)
+			var wg sync.WaitGroup
+			for c := 0; c < clients; c++ {
+				c := c
+				s := scs[c]
+				size := int32(1 + c%3)
+				wg.Add(1)
+				go func() {
+					defer wg.Done()
+					for rep := 0; rep < 40 && res[c].bad == ""; rep++ {
+						w := s.walk(s.in.direct, []int32{size}, nil, "", s.n+2)
+						var got []string
+						for _, p := range w.pages {
+							for _, it := range p.items {
+								got = append(got, it.id)
+							}
+						}
+						var want []string
+						for _, it := range s.ref {
+							want = append(want, it.id)
+						}
+						switch {
+						case w.panicked != "":
+							res[c].bad = "panic: " + w.panicked
+						case w.err != nil:
+							res[c].bad = fmt.Sprintf("walk %d failed after %d pages: %v", rep, len(w.pages), w.err)
+						case w.endless != "":
+							res[c].bad = fmt.Sprintf("walk %d: %s", rep, w.endless)
+						case strings.Join(got, "\x00") != strings.Join(want, "\x00"):
+							res[c].bad = fmt.Sprintf("walk %d (page size %d) returned %d items %q, the listing has %d: %q", rep, size, len(got), got, len(want), want)
+						}
+					}
+				}()
+			}
+			wg.Wait()
+			r.Eval(clients)
+			r.Count("concurrent-walk-rounds", 1)
+			r.Distinct(fmt.Sprintf("concwalk|%s|%d", t.rpc, round%4))
+			for c := range res {
+				if res[c].bad != "" {
+					r.Violation("C15/"+t.rpc+"/concurrent-walks", fmt.Sprintf("%d clients paging at the same time (each through its own model, the last through the first one's): client %d: %s", clients, c, trunc(res[c].bad, 1500)), map[string]any{"rpc": t.rpc, "case": idx})
+					break
+				}
+			}
+		}
+	}
+	r.Require("concurrent-walk-rounds", len(targets))
+}
+
+func trunc(s string, n int) string {
+	if len(s) > n {
+		return s[:n] + "…"
+	}
+	return s
 }
